@@ -18,6 +18,8 @@ def what(d):
     if not os.path.exists(p):
         return ''
     lines = [l for l in open(p).read().splitlines() if l.strip()]
+    if len(lines) > 1 and re.match(r'\**\s*need(ed|s) to manifest', lines[0], flags=re.I):
+        lines = lines[1:]      # notes that open with the 'Needed to manifest:' line: the description follows
     title = lines[0].lstrip('# ').strip() if lines else ''
     title = re.sub(r'^C\d\d\s*/?\s*', '', title)
     title = re.sub(r'^(seeded )?(defect|change|seed)\s*\d*\s*[-:–—]*\s*', '', title, flags=re.I)
